@@ -224,6 +224,34 @@ def fold_single_groups(layers):
     """A group that encloses exactly one leaf is equivalent to multiplying that leaf's alpha."""
     from collections import Counter
 
+    # groups that enclose exactly the same leaves (a group whose only content is another group) are one group with
+    # the product of the alphas
+    members = {}
+    for i, l in enumerate(layers):
+        for tok, _ in l.groups:
+            members.setdefault(tok, set()).add(i)
+    by_set = {}
+    for tok, m in members.items():
+        by_set.setdefault(frozenset(m), []).append(tok)
+    for toks in by_set.values():
+        if len(toks) < 2:
+            continue
+        keep = None
+        for l in layers:
+            if not any(t in toks for t, _ in l.groups):
+                continue
+            new, prod, pos = [], 1.0, None
+            for t, a in l.groups:
+                if t in toks:
+                    prod *= a
+                    if pos is None:
+                        pos = len(new)
+                        keep = keep or t
+                        new.append(None)
+                else:
+                    new.append((t, a))
+            new[pos] = (keep, prod)
+            l.groups = tuple(new)
     cnt = Counter(tok for l in layers for tok, _ in l.groups)
     for l in layers:
         keep = []
